@@ -83,7 +83,7 @@ def alias_acyclic(tab):
     return True
 
 
-def type_def(t, d, rng):
+def type_def(t, d, rng, bare=False):
     name = "T%d" % t
     kind = d["kind"]
     if kind == "enum":
@@ -93,7 +93,8 @@ def type_def(t, d, rng):
               for j, f in enumerate(d["fields"])]
     if kind == "alias":
         f = d["fields"][0]
-        return ir.alias_(name, expr_type(f["ty"], rng, wrap_ok=len(f["ty"]) == 1 and f["ty"][0] != -1 or True),
+        # base layout: the alias names its target directly (alias chains), other layouts wrap it in optional / list / set
+        return ir.alias_(name, expr_type(f["ty"], rng, wrap_ok=not bare),
                          None if f["decl"] == "undeclared" else f["decl"])
     if kind == "object":
         return ir.object_(name, fields)
@@ -132,7 +133,7 @@ def case_to_ir(case, rng, layout):
     """layout 0: types in index order, one service, one endpoint per argument in order (evaluation order = model).
     layout k>0: types shuffled, arguments shuffled over several services/endpoints."""
     tab, args = case["tab"], case["args"]
-    types = [type_def(t + 1, d, rng) for t, d in enumerate(tab)]
+    types = [type_def(t + 1, d, rng, bare=(layout == 0)) for t, d in enumerate(tab)]
     adefs = [arg_def(j + 1, a, rng) for j, a in enumerate(args)]
     if layout == 0:
         eps = [ir.endpoint("e%d" % (j + 1), "POST", ep_path("/e%d" % (j + 1), [a]), [a]) for j, a in enumerate(adefs)]
